@@ -128,8 +128,16 @@ def main(argv):
     cfgs = configs_for(prop, tier, mod)
     paths, tree, ran = extract.extract(cfgs)
     run.tree = tree
-    for name, p in paths.items():
-        run.facts[name] = Facts(p)
+    for attempt in (0, 1):
+        try:
+            for name, p in paths.items():
+                run.facts[name] = Facts(p)
+            break
+        except FileNotFoundError:
+            # a concurrent run's cache clean-up removed the fact set between extraction and loading: extract again
+            if attempt:
+                raise
+            paths, tree, ran = extract.extract(cfgs)
     try:
         mod.run(run)
     except Exception as e:  # fail closed: an engine error is not a pass
